@@ -9,6 +9,7 @@
 //!           abstract state after it were computed by TLC (MC_ByteSetGen); the harness compares for
 //!           equality only; behaviours that differ (and a seeded sample of all) are written as
 //!           traces for TLC to judge.
+//!   rerun   re-execute the calls stored in a replay file of a rejected run (--in <replay.json>)
 //!   subjects  list the subject names
 //!
 //! The harness contains no model of a trie: it calls through, projects and compares for equality.
@@ -671,7 +672,7 @@ fn drive_subject(a: &Args, name: &str, idx: usize) -> (Value, usize, usize, Vec<
     let rng0 = Rng::new(a.seed);
     // (universe size, steps, runs): the small universe forces re-insertion after removal and dense
     // prefix chains; the 40-key universe carries the long keys
-    let regimes: Vec<(usize, usize, usize)> = if a.thorough() { vec![(8, 80, 16), (40, 250, 8), (40, 600, 2)] } else { vec![(8, 50, 3), (40, 110, 3)] };
+    let regimes: Vec<(usize, usize, usize)> = if a.thorough() { vec![(8, 80, 16), (40, 250, 8), (40, 600, 2)] } else { vec![(8, 40, 3), (40, 80, 2)] };
     {
         let (mut nev, mut panics, mut refused, mut ins_total, mut rem_true, mut members_seen) = (0usize, 0usize, 0usize, 0usize, 0usize, 0usize);
         let mut constructed = true;
@@ -934,7 +935,13 @@ fn replay_subject(a: &Args, name: &str, idx: usize, behaviours: &[Value], table:
         Ok(Some(s)) => s.has_remove(),
         _ => false,
     };
+    // --only <index>: execute and write just that behaviour (replay of a stored rejection)
+    let only = a.get("only").and_then(|x| x.parse::<usize>().ok());
+    let gen = a.get_u64("gen", 0);
     for (bi, b) in behaviours.iter().enumerate() {
+        if only.map_or(false, |o| o != bi) {
+            continue;
+        }
         let steps = match b.as_array() {
             Some(x) => x,
             None => continue,
@@ -995,7 +1002,7 @@ fn replay_subject(a: &Args, name: &str, idx: usize, behaviours: &[Value], table:
         executed += 1;
         let sig = sigset.iter().cloned().collect::<Vec<_>>().join(" ");
         let differs = !sig.is_empty();
-        let sampled = rng.below(sample_every) == 0;
+        let sampled = only.is_some() || rng.below(sample_every) == 0;
         let mut write = sampled;
         if differs {
             mism += 1;
@@ -1007,7 +1014,7 @@ fn replay_subject(a: &Args, name: &str, idx: usize, behaviours: &[Value], table:
             }
         }
         if write {
-            tr.reset("byteset", name, reset_cfg(name, plan, json!({"behaviour": bi, "b2": true, "differs": differs, "signature": sig})));
+            tr.reset("byteset", name, reset_cfg(name, plan, json!({"behaviour": bi, "gen": gen, "b2": true, "differs": differs, "signature": sig})));
             for e in evs {
                 tr.ev(e);
             }
@@ -1020,12 +1027,78 @@ fn replay_subject(a: &Args, name: &str, idx: usize, behaviours: &[Value], table:
     (name.to_string(), v, executed, tr.total_events, tr.runs, files)
 }
 
+// ---------------------------------------------------------------- replay of a stored rejection
+
+/// re-execute the operations stored in a replay file (written by the orchestration for a rejected
+/// run): same subject, same universe, the logged calls in the logged order, full probe after every
+/// mutating call; the new trace is judged by TLC again.
+fn rerun(a: &Args) {
+    let rep: Value = serde_json::from_str(&std::fs::read_to_string(a.input.clone().expect("--in")).expect("read replay")).expect("replay json");
+    let name = rep["subject"].as_str().unwrap_or("").to_string();
+    let evs = rep["events"].as_array().cloned().unwrap_or_default();
+    let lk = |v: &Value| -> Vec<Key> { v.as_array().map(|x| x.iter().map(to_key).collect()).unwrap_or_default() };
+    let first = |op: &str| evs.iter().find(|e| e["op"] == op);
+    let col0 = |v: &Value| -> Vec<Key> { v.as_array().map(|x| x.iter().map(|p| to_key(&p[0])).collect()).unwrap_or_default() };
+    let plan = ProbePlan {
+        universe: lk(&rep["reset"]["universe"]),
+        absent: first("probe").map(|e| col0(&e["absent"])).unwrap_or_default(),
+        prefixes: first("probe_keys").map(|e| col0(&e["prefix"])).unwrap_or_else(|| vec![vec![]]),
+        queries: first("probe_fsa").map(|e| col0(&e["longest"])).unwrap_or_else(|| vec![vec![]]),
+    };
+    let mut tr = Tracer::new(&a.out, "bset-rerun");
+    let mut s = match guard(|| make(&name)) {
+        Ok(Some(s)) => s,
+        _ => {
+            eprintln!("c05: unknown subject {name}");
+            std::process::exit(2)
+        }
+    };
+    tr.reset("byteset", &name, reset_cfg(&name, &plan, json!({"rerun": true})));
+    let mut ctr = Ctr::default();
+    let mut dead = false;
+    for e in probe(&s, &plan, &ctr) {
+        dead |= is_panic(&e);
+        tr.ev(e);
+    }
+    for old in &evs {
+        if dead {
+            break;
+        }
+        let op = match old["op"].as_str().unwrap_or("") {
+            "reset" | "probe" | "probe_keys" | "probe_fsa" => continue,
+            "panic" => old["in"].as_str().unwrap_or(""),
+            x => x,
+        };
+        let k = to_key(if old.get("k").is_some() { &old["k"] } else if old.get("p").is_some() { &old["p"] } else { &old["q"] });
+        let ks = lk(&old["keys"]);
+        let e = match exec(&mut s, op, &k, &ks, &ctr) {
+            Some(e) => e,
+            None => continue,
+        };
+        dead |= is_panic(&e);
+        ctr.note(&e, ks.len());
+        tr.ev(e);
+        if matches!(op, "insert" | "remove" | "insert_all" | "build") && !dead {
+            for e in probe(&s, &plan, &ctr) {
+                dead |= is_panic(&e);
+                tr.ev(e);
+            }
+        }
+    }
+    if dead {
+        std::mem::forget(s);
+    }
+    tr.close();
+    write_summary(&a.out, &json!({"mode":"rerun","events":tr.total_events,"runs":tr.runs,"files":tr.files.iter().map(|p|p.display().to_string()).collect::<Vec<_>>()}));
+}
+
 fn main() {
     let a = Args::parse();
     quiet_panics();
     match a.mode.as_str() {
         "drive" => drive(&a),
         "replay" => replay(&a),
+        "rerun" => rerun(&a),
         "subjects" => {
             for s in subjects() {
                 println!("{s}");
